@@ -11,6 +11,9 @@ template <class T, glm::qualifier Q> static void reg_quat() {
 	add_op(name("neg"), q1, o4, 'B', 'B', 0, FN { STQ(out, -LDQ<T, Q>(in)); });
 	add_op(name("mul"), q2, o4, 'U', 'U', 8, FN { STQ(out, LDQ<T, Q>(in) * LDQ<T, Q>(in + 4)); }, SC { return 4 * amax<T>(in, 0, 4) * amax<T>(in, 4, 4); });
 	add_op(name("mul_s"), spec("@F4 @F1", tl), o4, 'V', 'V', 0, FN { STQ(out, LDQ<T, Q>(in) * SA<T>::get(in[4])); });
+	add_op(name("mul_s_compound"), spec("@F4 @F1", tl), o4, 'V', 'V', 0, FN { Qt q = LDQ<T, Q>(in); q *= SA<T>::get(in[4]); STQ(out, q); });
+	add_op(name("div_s_compound"), spec("@F4 @Y1", tl), o4, 'U', 'R', 2, FN { Qt q = LDQ<T, Q>(in); q /= SA<T>::get(in[4]); STQ(out, q); });
+	add_op(name("add_compound"), q2, o4, 'V', 'V', 0, FN { Qt q = LDQ<T, Q>(in); q += LDQ<T, Q>(in + 4); q -= LDQ<T, Q>(in + 4) * T(0.5); STQ(out, q); });
 	add_op(name("div_s"), spec("@F4 @Y1", tl), o4, 'U', 'R', 2, FN { STQ(out, LDQ<T, Q>(in) / SA<T>::get(in[4])); });
 	add_op(name("dot"), q2, o1, 'U', 'U', 8, FN { ST1(out, glm::dot(LDQ<T, Q>(in), LDQ<T, Q>(in + 4))); }, SC { return 4 * amax<T>(in, 0, 4) * amax<T>(in, 4, 4); });
 	add_op(name("length"), q1, o1, 'U', 'R', 8, FN { ST1(out, glm::length(LDQ<T, Q>(in))); }, SC { return 2 * amax<T>(in, 0, 4); });
@@ -214,8 +217,32 @@ template <class T, glm::qualifier Q> static void reg_classify() {
 	add_op(nm<T, Q>("gtx_fmod", "vec2"), spec("@F2 @Y2", tl), spec("@2", tl), 'B', 'B', 0, FN { ST(out, glm::fmod(VL<2, T, Q>::ld(in), VL<2, T, Q>::ld(in + 2))); });
 }
 
+// gtx dual quaternions: every constructor, the transforms and the blends (w,x,y,z of the real part, then of the dual part)
+template <class T, glm::qualifier Q> static inline void STDQ(Slot* o, glm::tdualquat<T, Q> const& d) { STQ(o, d.real); STQ(o + 4, d.dual); }
+template <class T, glm::qualifier Q> static void reg_dualquat() {
+	const char tl = (char)SA<T>::L;
+	auto name = [&](const char* b) { return nm<T, Q>(b, "dualquat"); };
+	typedef glm::tdualquat<T, Q> DQ;
+	add_op(name("ctor_q"), spec("@U4", tl), spec("@8", tl), 'B', 'B', 0, FN { DQ d(LDQ<T, Q>(in)); launder_q(&d); STDQ(out, d); });
+	add_op(name("ctor_q_q"), spec("@U4 @F4", tl), spec("@8", tl), 'B', 'B', 0, FN { DQ d(LDQ<T, Q>(in), LDQ<T, Q>(in + 4)); launder_q(&d); STDQ(out, d); });
+	add_op(name("ctor_q_t"), spec("@U4 @F3", tl), spec("@8", tl), 'U', 'U', 8, FN { DQ d(LDQ<T, Q>(in), VL<3, T, Q>::ld(in + 4)); STDQ(out, d); }, SC { return 1 + amax<T>(in, 4, 3); });
+	add_op(name("ctor_default"), spec("@F1", tl), spec("@8", tl), 'B', 'B', 0, FN { (void)in; DQ d = DQ(); launder_q(&d); DQ e(d); STDQ(out, e); }, nullptr, SC { (void)in;
+#if GLM_CONFIG_CTOR_INIT != GLM_CTOR_INIT_DISABLE
+		return 1.0L;
+#else
+		return 0.0L;  // default construction leaves the members uninitialised unless GLM_FORCE_CTOR_INIT: not compared
+#endif
+	});
+	add_op(name("mul_point"), spec("@U4 @F3 @F3", tl), spec("@3", tl), 'U', 'U', 64, FN { DQ d(LDQ<T, Q>(in), VL<3, T, Q>::ld(in + 4)); ST(out, d * VL<3, T, Q>::ld(in + 7)); }, SC { return 4 * (1 + amax<T>(in, 4, 3) + amax<T>(in, 7, 3)); });
+	add_op(name("mul_ctor_q_point"), spec("@U4 @F3", tl), spec("@3", tl), 'U', 'U', 64, FN { DQ d(LDQ<T, Q>(in)); ST(out, d * VL<3, T, Q>::ld(in + 4)); }, SC { return 4 * (1 + amax<T>(in, 4, 3)); });
+	add_op(name("lerp"), spec("@U4 @F3 @U4 @F3 @Z1", tl), spec("@8", tl), 'U', 'U', 64, FN { DQ a(LDQ<T, Q>(in), VL<3, T, Q>::ld(in + 4)), b(LDQ<T, Q>(in + 7), VL<3, T, Q>::ld(in + 11)); STDQ(out, glm::lerp(a, b, SA<T>::get(in[14]))); }, SC { return 4 * (1 + amax<T>(in, 4, 3) + amax<T>(in, 11, 3)); });
+	add_op(name("normalize_inverse"), spec("@U4 @F3", tl), spec("@8", tl), 'U', 'R', 64, FN { DQ a(LDQ<T, Q>(in), VL<3, T, Q>::ld(in + 4)); STDQ(out, glm::inverse(glm::normalize(a * T(1.5)))); }, SC { return 4 * (1 + amax<T>(in, 4, 3)); });
+	add_op(name("mat3x4_cast"), spec("@U4 @F3", tl), spec("@12", tl), 'U', 'U', 64, FN { DQ a(LDQ<T, Q>(in), VL<3, T, Q>::ld(in + 4)); STM(out, glm::mat3x4_cast(a)); }, SC { return 4 * (1 + amax<T>(in, 4, 3)); });
+}
+
 template <class T, glm::qualifier Q> static void reg_tq() {
 	reg_quat<T, Q>();
+	reg_dualquat<T, Q>();
 	reg_classify<T, Q>();
 	reg_gtxquat<T, Q>();
 	reg_matctor<T, Q, 2, 2>(); reg_matctor<T, Q, 2, 3>(); reg_matctor<T, Q, 2, 4>(); reg_matctor<T, Q, 3, 2>(); reg_matctor<T, Q, 3, 3>(); reg_matctor<T, Q, 3, 4>(); reg_matctor<T, Q, 4, 2>(); reg_matctor<T, Q, 4, 3>(); reg_matctor<T, Q, 4, 4>();
